@@ -91,7 +91,7 @@ class C11(Check):
     # ------------------------------------------------------------------
     def _case(self, ops, extra=None):
         """play `ops`; returns the correspondence triple or None (skipped)"""
-        run = E.EditRunner()
+        run = E.EditRunner().track_spec()
         try:
             E.play(run, ops)
         except core.Hang:
@@ -144,7 +144,8 @@ class C11(Check):
         ['XN', 'n1'], ['XN', 'n2'],
         ['H', '/a', False], ['H', '/ab', False], ['H', '/a/', True], ['H', '/a/b', False], ['XH', '/a'], ['XH', '/ab'],
     ]
-    SMALL_PROBES = ([['V', 'GET', p] for p in ['/a', '/ab', '/abc', '/a/q', '/ab/q', '/abx', '/a/', '/a/b/d', '/a/b']]
+    SMALL_PROBES = ([['FS', ['a', 'ab', 'abc', 'a/q', 'ab/q', 'a/b/d', 'a/b', 'a/q/d'], ['GET', 'ANY']]] +
+                    [['V', 'GET', p] for p in ['/a', '/ab', '/abc', '/a/q', '/ab/q', '/abx', '/a/', '/a/b/d', '/a/b']]
                     + [['P', 'ab', ['POST', 'ANY']], ['P', 'a/b/d', ['GET']], ['L'], ['I', 'n1'], ['I', 'n2'], ['IR', '/a'],
                        ['IR', '/ab'], ['IR', '/a/<z>'], ['K', '/a'], ['K', '/ab'], ['K', '/a/b']])
 
